@@ -15,8 +15,10 @@ THEOREM_STATEMENTS = ["C04_reassembly_any_order: forall d order, Forall (fun i =
 
 
 def streams(seed, tier):
-    return _hc.build_streams(["pair", "ideal", "hostile", "reuse"], seed, tier, 0.6)
+    return _hc.build_streams(["pair", "ideal", "hostile", "reuse"], seed, tier, 0.6) + [_hc.codec_roundtrip_stream(seed, tier)]
 
 
 def oracle(name, ops, out):
+    if _hc.stream_of(name) == "rt":
+        return _hc.codec_oracle(name, ops, out)
     return _hc.run_oracles({"*": [frame_size_oracle], "pair": [subsequence_oracle], "ideal": [subsequence_oracle], "reuse": [subsequence_oracle]}, name, ops, out)
